@@ -666,6 +666,52 @@ def soft_sign(ctx, vcfg):
         _prove(ctx, f"sign_agrees.bit{k}", claims, "mono")
 
 
+def _carried_cfgs(tier):
+    return with_variants([c for c in _schemes(tier) if c[0] == "pi4qpsk"], ["p1", "p3"] if tier == "quick" else ["p1", "p2", "p3", "p5"])
+
+
+@obligation("C06.pi4qpsk_soft_and_hard_share_carried_state", function=FM + "pi4qpsk.py:Pi4QPSKDemodulator.forward", configs=_carried_cfgs, max_paths=64, timeout_ms=60000)
+def pi4_carried_state(ctx, vcfg):
+    """the alternating scheme in its default (training) mode carries the constellation phase across calls.  Two fresh
+    demodulators first consume the same concrete chunk of p symbols (hard call), then one demodulates a symbolic y hard, the
+    other soft: both must use the constellation of absolute position p + t for symbol t - the hard output is a nearest point
+    of that table and the LLR sign agrees with the hard bit"""
+    cfg, var = split_variant(vcfg)
+    p = int(var[1:])
+    sc, sc1 = Scheme(cfg), Scheme(cfg)
+    prior = torch.tensor([[complex(0.3 + 0.1 * j, -0.2 + 0.15 * j) for j in range(p)]], dtype=torch.complex64)
+    with torch.no_grad():
+        sc.dem(prior)
+        sc1.dem(prior)
+    shape = (1, 2)
+    y = ctx.complexes("y", shape)
+    soft = ctx.call(sc.dem.forward, y, torch.tensor(1.0))
+    hard = ctx.call(sc1.dem.forward, y)
+    ctx.ensure("returns", soft.ok and hard.ok, note=repr(soft.exc or hard.exc) if not (soft.ok and hard.ok) else "")
+    if not (soft.ok and hard.ok):
+        return
+    ctx.ensure("same_shape", tuple(soft.value.shape) == tuple(hard.value.shape) == (1, 4))
+    if not tuple(soft.value.shape) == tuple(hard.value.shape) == (1, 4):
+        return
+    yr, yi = PC(y)
+    sp, hp = P(soft.value), P(hard.value)
+    nearest = []
+    for idx, t in _symbols(yr):
+        C = sc.table(p + t)
+        bits = [hp[idx[:-1] + (t * sc.b + k,)] for k in range(sc.b)]
+        is_label = [SP.conj(S.eq(bits[k], sc.labels[i][k]) for k in range(sc.b)) for i in range(sc.n)]
+        nearest.append(nearest_point_claim(ctx, yr[idx], yi[idx], C, is_label))
+    _prove(ctx, "hard_uses_table_of_absolute_position", nearest, "mono")
+    for k in range(sc.b):
+        claims = []
+        for idx, t in _symbols(yr):
+            l, h = _llr_at(sp, idx, t, sc.b, k), _llr_at(hp, idx, t, sc.b, k)
+            eps = 0 if ctx.mode == "sym" else Fraction(magnitude(yr[idx], yi[idx], sc.table(p + t))) * Fraction(1, 10**4)
+            claims.append(S.lor(S.le(l, eps), S.eq(h, 0)))
+            claims.append(S.lor(S.le(S.mul(-1, eps), l), S.eq(h, 1)))
+        _prove(ctx, f"sign_agrees.bit{k}", claims, "mono")
+
+
 # ================================================================================================ DPSK family
 # The property speaks of the decision variable z = y_t conj(y_{t-1}); DPSKDemodulator.forward normalises it, zn = z/(|z|+1e-9),
 # and computes its soft output from zn.  Contracts:
